@@ -81,11 +81,12 @@ class GenList(list):
 
 class Scope(dict):
     """A local scope that falls back to an enclosing environment (no copying of the globals per call)."""
-    __slots__ = ('parent',)
+    __slots__ = ('parent', '_comp')
 
-    def __init__(self, parent):
+    def __init__(self, parent, comp=False):
         dict.__init__(self)
         self.parent = parent
+        self._comp = comp       # the scope of one comprehension iteration (a walrus binds outside of it)
 
     def __missing__(self, k):
         return self.parent[k]
@@ -270,6 +271,35 @@ def _hasattr(obj, name):
     return _getattr(obj, name, sentinel) is not sentinel
 
 
+def _modern_name(module, name):
+    """What `from <module> import <name>` binds for the helpers of contextlib / typing / dataclasses / enum that private code of
+    the repository may use (models where the interpreter needs one, the real object where it is a plain value)."""
+    if module == 'contextlib':
+        from . import interp as _interp
+        return {'suppress': _interp._Suppress, 'nullcontext': _interp._NullContext}.get(name)
+    if module == 'typing':
+        import typing as _typing
+        if name == 'NamedTuple':
+            return _typing.NamedTuple
+        if name in ('Optional', 'Union', 'Tuple', 'List', 'Dict', 'Iterable', 'Iterator', 'Sequence', 'Callable', 'Any', 'Set', 'FrozenSet', 'Mapping',
+                    'Generator', 'Type', 'TypeVar', 'Final', 'ClassVar', 'Literal', 'cast'):
+            return getattr(_typing, name, None)
+        return None
+    if module == 'dataclasses':
+        return {'dataclass': _DataclassMarker(), 'field': None}.get(name)
+    if module == 'enum':
+        import enum as _enum
+        return getattr(_enum, name, None) if name in ('Enum', 'IntEnum', 'IntFlag', 'Flag', 'unique', 'auto') else None
+    return None
+
+
+class _DataclassMarker:
+    """`@dataclass` / `@dataclass(frozen=True, ...)`: the interpreter builds the instance from the annotated fields."""
+
+    def __call__(self, *a, **k):
+        return a[0] if a else self
+
+
 def _isinstance(obj, cls):
     if isinstance(cls, tuple):
         return any(_isinstance(obj, c) for c in cls)
@@ -284,7 +314,7 @@ _BUILTINS = {
     'ord': ord, 'chr': chr, 'int': int, 'str': str, 'bytes': bytes, 'bytearray': bytearray,
     'divmod': divmod, 'abs': abs, 'bool': bool, 'float': float, 'any': any, 'all': all,
     'reversed': lambda x: list(reversed(x)), 'enumerate': lambda *a, **k: list(enumerate(*a, **k)),
-    'zip': lambda *a: list(zip(*a)), 'isinstance': _isinstance, 'getattr': _getattr, 'hasattr': _hasattr, 'iter': iter, 'next': lambda it, *d: next(it if hasattr(it, '__next__') else iter(it), *d),
+    'zip': lambda *a, **k: list(zip(*a, **k)), 'isinstance': _isinstance, 'getattr': _getattr, 'hasattr': _hasattr, 'iter': iter, 'next': lambda it, *d: next(it if hasattr(it, '__next__') else iter(it), *d),
     'None': None, 'True': True, 'False': False, 'round': round, 'repr': repr, 'hex': hex, 'vars': vars,
     'namedtuple': collections.namedtuple, 'property': property,
     'map': lambda f, *its: [f(*a) for a in zip(*its)], 'filter': lambda f, it: [x for x in it if (f(x) if f is not None else x)],
@@ -298,10 +328,10 @@ _SAFE_METHODS = {
     dict: {'keys', 'values', 'items', 'get', 'pop', 'update', 'setdefault', 'copy', '__getitem__', '__contains__', 'clear', 'popitem'},
     str: {'lower', 'upper', 'find', 'index', 'count', 'startswith', 'endswith', 'join', 'split',
           'strip', 'rstrip', 'lstrip', 'format', 'encode', 'isdigit', 'rfind', 'replace', 'translate', 'partition', 'rpartition', 'title', 'zfill',
-          'isalnum', 'isalpha', 'isupper', 'islower', 'splitlines', 'casefold', 'capitalize', 'center', 'ljust', 'rjust', 'isspace', 'isascii', 'isnumeric', 'isdecimal'},
+          'isalnum', 'isalpha', 'isupper', 'islower', 'splitlines', 'casefold', 'removeprefix', 'removesuffix', 'rsplit', 'expandtabs', 'swapcase', 'isidentifier', 'isprintable', 'capitalize', 'center', 'ljust', 'rjust', 'isspace', 'isascii', 'isnumeric', 'isdecimal'},
     bytes: {'find', 'index', 'count', 'lower', 'upper', 'startswith', 'endswith', 'decode', 'isdigit', 'join', 'split', 'strip', 'hex', 'replace', 'rfind',
             'translate', 'rstrip', 'lstrip', 'zfill', 'ljust', 'rjust', 'partition', 'rpartition', 'isalnum', 'isalpha', 'isupper', 'islower', 'isspace', 'center',
-            'rsplit', 'splitlines', 'title', 'capitalize', 'swapcase', 'isascii', '__getitem__', '__contains__'},
+            'rsplit', 'splitlines', 'title', 'capitalize', 'swapcase', 'isascii', 'removeprefix', 'removesuffix', '__getitem__', '__contains__'},
     bytearray: {'find', 'index', 'count', 'extend', 'append', 'pop', 'translate', 'decode', 'hex', 'startswith', 'endswith', 'rfind', 'replace', 'join',
                 'insert', 'reverse', 'clear', 'copy', 'strip', 'rstrip', 'lstrip', 'zfill', 'split', 'isdigit', '__getitem__', '__contains__'},
     tuple: {'index', 'count', '__getitem__', '__contains__'},
@@ -407,6 +437,10 @@ def ev(node, env):
                 return getattr(base, node.attr)
         if isinstance(base, tuple) and hasattr(type(base), '_fields') and (node.attr in type(base)._fields or node.attr in ('_replace', '_asdict', '_fields')):
             return getattr(base, node.attr)
+        if isinstance(base, __import__('enum').Enum) and node.attr in ('name', 'value'):
+            return getattr(base, node.attr)
+        if isinstance(base, type) and issubclass(base, __import__('enum').Enum) and not node.attr.startswith('_') and hasattr(base, node.attr):
+            return getattr(base, node.attr)
         if type(base).__name__ == 'CodecInfo' and node.attr == 'name':
             return base.name
         if base is tuple and node.attr == '__new__':
@@ -492,6 +526,14 @@ def ev(node, env):
                 return False
             left = r
         return True
+    if t is ast.NamedExpr:
+        val = ev(node.value, env)
+        tgt_env = env
+        # a walrus inside a comprehension binds in the enclosing function scope
+        while isinstance(tgt_env, Scope) and getattr(tgt_env, '_comp', False) and isinstance(getattr(tgt_env, 'parent', None), dict):
+            tgt_env = tgt_env.parent
+        tgt_env[node.target.id] = val
+        return val
     if t is ast.IfExp:
         return ev(node.body, env) if ev(node.test, env) else ev(node.orelse, env)
     if t is ast.Slice:
@@ -591,7 +633,7 @@ def _comp(gens, env, leaf):
         if isinstance(it, Sym):
             raise Unknown('comprehension over symbolic iterable')
         for v in it:
-            e2 = Scope(e)
+            e2 = Scope(e, comp=True)
             _bind(g.target, v, e2)
             if all(ev(c, e2) for c in g.ifs):
                 yield from rec(i + 1, e2)
@@ -685,6 +727,10 @@ def module_consts(forest, modname, _stack=()):
                 elif a.name == 'decimal':
                     import decimal as _decimal
                     env[a.asname or 'decimal'] = Namespace('decimal', {'Decimal': _decimal.Decimal, 'ROUND_HALF_UP': _decimal.ROUND_HALF_UP})
+                elif a.name in ('contextlib', 'typing', 'dataclasses', 'enum'):
+                    import importlib as _il
+                    real = _il.import_module(a.name)
+                    env[a.asname or a.name] = Namespace(a.name, {k: _modern_name(a.name, k) for k in dir(real) if _modern_name(a.name, k) is not None})
                 elif a.name == 'codecs':
                     import codecs as _codecs
                     env[a.asname or 'codecs'] = Namespace('codecs', {'lookup': _codecs.lookup})
@@ -692,6 +738,11 @@ def module_consts(forest, modname, _stack=()):
                     env[a.asname or 'os'] = Namespace('os', {'path': Namespace('os.path', dict(_PURE_MODULES['os.path'])), 'linesep': '\n', 'sep': '/'})
                 elif a.name in _PURE_MODULES and (a.asname or a.name) not in env:
                     env[a.asname or a.name] = Namespace(a.name, _pure_module(a.name))
+        elif isinstance(st, ast.ImportFrom) and st.module in ('contextlib', 'typing', 'dataclasses', 'enum'):
+            for a in st.names:
+                v = _modern_name(st.module, a.name)
+                if v is not None:
+                    env[a.asname or a.name] = v
         elif isinstance(st, ast.ImportFrom):
             for a in st.names:
                 if st.module == 'collections' and a.name == 'namedtuple':
